@@ -2179,3 +2179,62 @@ func ruleC06(c *Ctx, r *Report) {
 		}
 	}
 }
+
+func init() { register("C16", "", ruleC16de) }
+
+// ruleC16de: (MP-C16d) the statement handlers keep sub-slices of their packet (parameter types, long data), and the
+// session's read buffer is recycled after every command: the packet handed to handleStmtExecute / handleStmtSendLongData
+// is a fresh copy made in ExecuteCommand; (MP-C16e) ResetParams replaces the argument slice on every path.
+func ruleC16de(c *Ctx, r *Report) {
+	r.floor("MP-C16d", 2)
+	r.floor("MP-C16e", 1)
+	ec := c.seMethod("ExecuteCommand")
+	reset := c.Method(serverRel, "Stmt", "ResetParams")
+	argsF := c.Field(serverRel, "Stmt", "args")
+	if ec == nil || reset == nil || argsF == nil {
+		r.undecided("MP-C16d", "proxy/server", "anchor", "-", "anchors not found")
+		return
+	}
+	en := c.FuncName(ec)
+	for _, hn := range []string{"handleStmtExecute", "handleStmtSendLongData"} {
+		h := c.seMethod(hn)
+		if h == nil {
+			r.undecided("MP-C16d", en, "packet-copy:"+hn, "-", "handler not found")
+			continue
+		}
+		calls := callsIn(ec, func(cc *ssa.CallCommon) bool { return callsFunc(cc, h) })
+		if len(calls) == 0 {
+			r.undecided("MP-C16d", en, "packet-copy:"+hn, c.Pos(ec.Pos()), "handler is not called from ExecuteCommand")
+		}
+		for _, ci := range calls {
+			cc := callCommon(ci)
+			arg := cc.Args[len(cc.Args)-1]
+			fresh := false
+			if mk, ok := stripValue(resolveLoad(arg)).(*ssa.MakeSlice); ok {
+				// and the packet is copied into it
+				allInstrs(ec, func(in ssa.Instruction) {
+					if call, ok := in.(*ssa.Call); ok {
+						if b, ok := call.Call.Value.(*ssa.Builtin); ok && b.Name() == "copy" && stripValue(call.Call.Args[0]) == ssa.Value(mk) && instrDominates(in, ci) {
+							fresh = true
+						}
+					}
+				})
+			}
+			if fresh {
+				r.ok("MP-C16d", en, "packet-copy:"+hn, c.Pos(ci.Pos()), "the handler receives a private copy of the packet")
+			} else {
+				r.viol("MP-C16d", en, "packet-copy:"+hn, c.Pos(ci.Pos()), "the handler receives the connection's pooled read buffer itself: what the statement remembers from this packet (parameter types, long data) is overwritten by later packets")
+			}
+		}
+	}
+	rn := c.FuncName(reset)
+	exits := searchExits(reset, nil, reset.Blocks[0], SearchOpts{Stop: func(in ssa.Instruction) bool {
+		st, ok := in.(*ssa.Store)
+		return ok && fieldOfAddr(st.Addr) == argsF
+	}})
+	if len(exits) == 0 {
+		r.ok("MP-C16e", rn, "always-replaces-args", c.Pos(reset.Pos()), "every path through ResetParams installs a new argument slice")
+	} else {
+		r.viol("MP-C16e", rn, "always-replaces-args", c.Pos(reset.Pos()), "ResetParams can return without clearing the bound arguments: values (e.g. long data) survive a reset or a failed execution", c.pathStrings(exits[0])...)
+	}
+}
